@@ -122,8 +122,8 @@ def gen_geo(tier, seed):
 
 
 # ------------------------------------------------------------------------------------------
-X_OFF = [-3.33e6, -2.2e6, -1.5e6, -4e5, -1e-4, 0.0, 1e-4, 4e5, 1.5e6, 2.2e6, 3.33e6]
-N_ABS = [0.0, 1e-4, 1e6, 5e6, 9e6, 1e7 - 1e-4, 1e7]
+X_OFF = [-3.33e6, -2.2e6, -1.5e6, -4e5, -1e-4, 0.0, 1e-4, 4e-4, 4e5, 400000.0004, 1.5e6, 2.2e6, 3.33e6]
+N_ABS = [0.0, 1e-4, 1e6, 5e6, 5000000.0004, 9e6, 1e7 - 1e-4, 1e7]
 
 
 def gen_grid(tier, seed):
